@@ -19,6 +19,7 @@ import collections
 import concurrent.futures
 import itertools
 import sqlite3
+import warnings
 
 from .. import tlc
 from ..tlc import MachineryError
@@ -248,6 +249,8 @@ def bound_in_order(st, bound, refs, n):
             return ('v', [vals[r] for r in refs])
         if len(vals) != len(set(refs)):
             return ('v', ['<%d arguments for placeholders %r>' % (len(vals), refs)])
+        if any(not 1 <= int(r) <= len(vals) for r in refs):
+            raise IndexError
         return ('v', [vals[int(r) - 1] for r in refs])
     except (KeyError, IndexError, ValueError):
         return ('v', ['<placeholders %r do not match the arguments>' % (refs,)])
@@ -259,6 +262,7 @@ def fn_of(st):
 
 # ---------------------------------------------------------------------------------------------------
 def run(ctx):
+    warnings.filterwarnings('ignore', category=SyntaxWarning)       # compile() of e.g. `()()` in the enumerated expressions
     tab, _ = tlc.evaluate('RawSqlTables', ctx.scratch, inputs={'tier': ctx.tier})
     alphabet, styles = tab['alphabet'], tab['styles']
     names = list(styles) + ['items']
@@ -269,6 +273,7 @@ def run(ctx):
         stmts += ['$' + ''.join(w) for w in itertools.product(alphabet, repeat=tab['exprfirst'])]
     if len(stmts) != tab['count']:
         raise MachineryError('statement space: %d enumerated, the spec counts %d' % (len(stmts), tab['count']))
+    stmts += sorted(''.join(w) for w in tab['extra'] if ''.join(w) not in set(stmts))
     stats = collections.Counter()
     outs_all = [outcome_all(s, styles) for s in stmts]
     cases = [case_of(s, styles, o) for s, o in zip(stmts, outs_all)]
